@@ -55,8 +55,8 @@ def line(getter, args, caps):
 # --------------------------------------------------------------------------
 def gen_cases(rng, thorough, base_len, errs):
     g = {}
-    full = 400 if thorough else 160          # value lengths swept with every cap
-    nbig = 40 if thorough else 10
+    full = 600 if thorough else 260          # value lengths swept with every cap
+    nbig = 60 if thorough else 16
     BIG = [255, 256, 257, 1023, 1024, 4095, 4096, 4097, 5000]
 
     def biglens(lo, hi):
@@ -253,6 +253,7 @@ def true_value(oracle):
 class Defects:
     def __init__(self):
         self.cwd_long = []
+        self.case = ""
 
 
 def check_call(g, tv, abstract, cap, rc, size, bufhex, first, defects):
@@ -296,7 +297,7 @@ def check_call(g, tv, abstract, cap, rc, size, bufhex, first, defects):
             return "retry with the reported size %d failed again with UV_ENOBUFS (wants %d)" % (cap, size)
         return None
     if g == "cwd" and rc == ERANGE and n > PATH_MAX and cap <= n and size == cap:
-        defects.cwd_long.append((n, cap))
+        defects.cwd_long.append((n, cap, defects.case))
         return None
     return "unexpected error %d (cap %d, value of %d bytes)" % (rc, cap, n)
 
@@ -304,6 +305,7 @@ def check_call(g, tv, abstract, cap, rc, size, bufhex, first, defects):
 def make_monitor(defects):
     def monitor(case, impl):
         oracle = case.split("## oracle:")[1]
+        defects.case = case
         g, tv, abstract = true_value(oracle)
         for tok in impl.split():
             if tok == "SEGV" or tok.endswith("SEGV"):
@@ -337,7 +339,7 @@ def run_group(exe, workdir, lines):
     out, errs = [], ""
     rest = list(lines)
     guard = 0
-    while rest and guard < 20:
+    while rest and guard < 60:
         guard += 1
         p = subprocess.run([exe, "A" * ARGV_PAD], input="\n".join(rest) + "\n", cwd=workdir,
                            stdout=subprocess.PIPE, stderr=subprocess.PIPE, text=True, timeout=600)
@@ -433,18 +435,19 @@ def main():
 
     # known defect: uv_cwd with a working directory longer than PATH_MAX and a too-small buffer
     if defects.cwd_long:
-        n, cap = defects.cwd_long[0]
+        n, cap, case = min(defects.cwd_long, key=lambda t: (t[0], abs(t[1] - 16)))
         f = chk.match_known(KNOWN_CWD)
         if f:
             chk.known_hit(f)
         else:
             chk.violation("uv_cwd: working directory of %d bytes (> PATH_MAX), buffer of %d: returns UV_ERANGE and leaves "
-                          "*size unchanged instead of UV_ENOBUFS with the needed size (%d occurrences)"
-                          % (n, cap, len(defects.cwd_long)),
-                          {"kind": "monitor", "key": KNOWN_CWD,
-                           "case": next((c for c in groups.get("cwd", []) if True), ""),
-                           "how": "chdir into nested relative directories until the path has %d bytes, then "
-                                  "uv_cwd(buf, &size) with size=%d" % (n, cap)}, found_input=True)
+                          "*size unchanged instead of UV_ENOBUFS with the needed size (%d such calls; known-finding key %s)"
+                          % (n, cap, len(defects.cwd_long), KNOWN_CWD),
+                          {"kind": "monitor", "key": KNOWN_CWD, "case": case.split("|")[0] + "| %d" % cap,
+                           "theorem": "C19_cwd_long_refuted",
+                           "how": "the numbers after 'cwd' are the lengths of nested directories created and entered "
+                                  "(relative chdir) below the start directory; then uv_cwd(buf, &size) with size=%d; "
+                                  "replay with bin/check C19 --replay <this file>" % cap}, found_input=True)
     chk.cov["cwd_long_erange_observations"] = len(defects.cwd_long)
 
     chk.finish(
